@@ -43,7 +43,7 @@ def cases(draw):
     return {"cfg": cfg, "k": draw(st.integers(0, 3)), "previous": draw(st.sampled_from([True, True, False])),
             "big": draw(st.integers(0, 5)) == 0,
             # the injected error is an ordinary Exception, or an interrupt (BaseException, as Ctrl-C during a save)
-            "interrupt": draw(st.booleans())}
+            "interrupt": draw(st.sampled_from([False, True, "oserror"]))}
 
 
 def die_at(j, fn, code_obj):
@@ -79,7 +79,7 @@ def die_at(j, fn, code_obj):
 def raise_at(j, fn, code_obj, interrupt=False):
     """In-process: raise Boom at the j-th line event of code_obj. Returns 'done' if fn completed first. With `interrupt` the
     error is not an `Exception` subclass (a KeyboardInterrupt-like BaseException: Ctrl-C during a save)."""
-    class Boom(BaseException if interrupt else Exception):
+    class Boom(OSError if interrupt == "oserror" else (BaseException if interrupt else Exception)):
         pass
 
     n = [0]
@@ -221,7 +221,7 @@ def check_json(ctx: Ctx, case):
             while True:
                 write_state(work, state_o) if previous else (shutil.rmtree(work, ignore_errors=True))
                 done = raise_at(j, lambda: cal.create_checkpoint(work), jp.save_calibrator_state.__code__,
-                                interrupt=bool(case.get("interrupt"))) == "done"
+                                interrupt=case.get("interrupt")) == "done"
                 if done:
                     break
                 one = dict(case, fault={"kind": "exception", "line_event": j})
@@ -250,6 +250,32 @@ def check_json(ctx: Ctx, case):
                 j += 1
                 if j > 600:
                     raise RuntimeError("save never completed")
+            # two failed saves in a row: the first at a few positions spread over the save, the second (an I/O error) at every
+            # second statement - whatever the first left behind must not make the second one end silently half-done
+            n_events = j
+            n1, st2 = (3, 3) if ctx.quick else (6, 2)
+            for j1 in (range(0, n_events, max(1, n_events // n1)) if previous else ()):
+                for j2 in range(j1 % st2, n_events + 40, st2):
+                    write_state(work, state_o) if previous else (shutil.rmtree(work, ignore_errors=True))
+                    if raise_at(j1, lambda: cal.create_checkpoint(work), jp.save_calibrator_state.__code__) == "done":
+                        break
+                    if not os.path.isdir(work):
+                        break
+                    try:
+                        done2 = raise_at(j2, lambda: cal.create_checkpoint(work), jp.save_calibrator_state.__code__,
+                                         interrupt="oserror") == "done"
+                    except Exception:  # noqa: BLE001 - the second save refuses the debris loudly (another error type)
+                        done2 = False
+                    two = dict(case, fault={"kind": "two exceptions", "line_events": [j1, j2]})
+                    v, info = verdict_json(work, model, snap_o, snap_n)
+                    ctx.count(sub, two, True, [f"two-failed-saves->{v}"])
+                    if v == "hybrid":
+                        ctx.fail("C06/json-hybrid-restored", f"a save that failed at line event {j1} followed by a save that hit an "
+                                 f"I/O error at line event {j2} leaves a folder that restores as neither the previous nor the new "
+                                 f"checkpoint: {info}", sub, two)
+                        return
+                    if done2:
+                        break
     finally:
         shutil.rmtree(root, ignore_errors=True)
     ctx.classes[f"{sub}:pairs-fully-enumerated"] += 1
@@ -332,7 +358,7 @@ def check_sqlite(ctx: Ctx, case):
                         done = rc == 17
                     else:
                         done = raise_at(j, lambda: sq.save_calibrator_state(work, *args), code,
-                                        interrupt=bool(case.get("interrupt"))) == "done"
+                                        interrupt=case.get("interrupt")) == "done"
                     one = dict(case, fault={"kind": mode, "line_event": j})
                     v, info = verdict_sqlite(work, tup_o, tup_n) if os.path.isdir(work) else ("raises", "no folder")
                     ctx.count(sub, one, j > 0 and not done, [f"{mode}->{v}"] + (["big-row"] if case.get("big") else []))
